@@ -26,6 +26,13 @@ BIGPOW_EXPONENTS = {"quick": range(4, 10), "thorough": range(4, 14)}
 BIGPOW_NC_MAX = 9          # distribute(commutative=False) keeps all 2**n terms: only up to here
 HISTORY_POOL = {"quick": 6, "thorough": 12}
 POLY_MAX_EXP = 3                                            # exponents 0..3 in the poly4 family
+SHORT_MANTISSA_BITS = 32
+FLOAT_SETS = {                                              # boundary magnitudes of float constants
+    "quick": ((2.0 ** -60, 3 * 2.0 ** -61), (2.0 ** -20, 1.5)),
+    "thorough": ((2.0 ** -60, 3 * 2.0 ** -61), (2.0 ** -20, 1.5), (2.0 ** 30, 2.0 ** 12),
+                 (5e-324, 2.0 ** -1000)),
+}
+BIGPOW_LINEAR = {"quick": range(10, 41), "thorough": range(10, 67)}   # exponents of (x+1) alone
 MAX_FLOAT_DENOM = 4096                                      # decoding of folded float constants
 FLOAT_DECODE_TOL = Fraction(1, 10 ** 9)
 
@@ -43,14 +50,16 @@ class NotInFragment(Exception):
 # {{{ exact evaluation
 
 def decode_float(f: float) -> Fraction:
-    """A float constant -> the rational it stands for.  Exactly representable small dyadics are
-    themselves; a float that arose from int/int division (constant folding uses Python's true
-    division) is mapped to the unique rational with denominator <= MAX_FLOAT_DENOM next to it."""
+    """A float constant -> the rational it stands for.  Dyadics with a small denominator or a
+    short mantissa (<= SHORT_MANTISSA_BITS significant bits, any magnitude) are themselves; a
+    float that arose from int/int division (constant folding uses Python's true division) is
+    mapped to the unique rational with denominator <= MAX_FLOAT_DENOM next to it."""
     if f != f or f in (float("inf"), float("-inf")):
         raise NotInFragment("non-finite float")
     exact = Fraction(f)
-    if exact.denominator <= MAX_FLOAT_DENOM:
-        return exact
+    if exact.denominator <= MAX_FLOAT_DENOM \
+            or exact.numerator.bit_length() <= SHORT_MANTISSA_BITS:
+        return exact                        # a deliberate dyadic constant of any magnitude
     near = exact.limit_denominator(MAX_FLOAT_DENOM)
     if abs(near - exact) > FLOAT_DECODE_TOL * max(1, abs(near)):
         raise NotInFragment(f"float constant {f!r} is not a small rational")
@@ -155,9 +164,10 @@ _CONST = ("int", "float", "bool")
 
 
 def is_rational(s) -> bool:
-    """Sum / Product / Quotient / Power with an integer literal exponent over variables and ints."""
+    """Sum / Product / Quotient / Power with an integer literal exponent over variables, ints and
+    (rf-floats family) float literals."""
     t = s[0]
-    if t == "int" or t == "Variable":
+    if t in ("int", "float") or t == "Variable":
         return True
     if t in ("Sum", "Product"):
         return s[1][0] == "tuple" and all(is_rational(c) for c in s[1][1:])
@@ -170,7 +180,7 @@ def is_rational(s) -> bool:
 
 def is_polynomial(s) -> bool:
     t = s[0]
-    if t == "int" or t == "Variable":
+    if t in ("int", "float") or t == "Variable":
         return True
     if t in ("Sum", "Product"):
         return s[1][0] == "tuple" and all(is_polynomial(c) for c in s[1][1:])
@@ -404,6 +414,76 @@ def bigpow(tier):
             if tier != "quick" and n <= BIGPOW_NC_MAX:
                 yield ("Sum", T(("Power", b, C(n)),
                                 ("Product", T(C(-1), ("Power", b, C(n - 1))))))
+    # the exponent dimension continued: every exponent up to the bound for the univariate binomial
+    for n in BIGPOW_LINEAR[tier]:
+        if n not in BIGPOW_EXPONENTS[tier]:
+            yield ("Power", bases[0], C(n))
+
+
+def _short_exact(q: Fraction) -> bool:
+    if q == 0:
+        return True
+    try:
+        f = float(q)
+    except OverflowError:
+        return False
+    return Fraction(f) == q and q.numerator.bit_length() <= SHORT_MANTISSA_BITS and f != 0.0
+
+
+def float_arithmetic_exact(s, extra=()) -> bool:
+    """Every sum, product and (product of a part) + (sum of the rest) of every sub-multiset of
+    the literal constants occurring in the tree (plus *extra*: the implicit coefficient 1 and
+    count 2 that term collection brings in) is a double with a short mantissa: in whatever
+    order a rewriter combines the constants with Python's float arithmetic, no rounding, overflow
+    or underflow takes place
+    (rounding is not the subject)."""
+    occ = [Fraction(c[1]) for c in walk(s) if c[0] in ("int", "float")] + list(extra)
+    for r in range(1, len(occ) + 1):
+        for combo in itertools.combinations(occ, r):
+            total, prod = sum(combo), Fraction(1)
+            for q in combo:
+                prod *= q
+            if not (_short_exact(total) and _short_exact(prod)):
+                return False
+            for k in range(2, len(combo)):
+                for idx in itertools.combinations(range(len(combo)), k):
+                    part = Fraction(1)
+                    for i in idx:
+                        part *= combo[i]
+                    rest = sum(q for i, q in enumerate(combo) if i not in idx)
+                    if not _short_exact(part + rest):
+                        return False
+    return True
+
+
+def float_trees(tier):
+    """Sums/products (depth 2 complete, depth 3 binary over a reduced pool) whose constants
+    include float literals of boundary magnitude; only trees on which float arithmetic is exact
+    (-> (mode, tree): all configurations, or only those that do not collect terms)."""
+    x, y = V("x"), V("y")
+    for fs in FLOAT_SETS[tier]:
+        f1, f2 = C(fs[0]), C(fs[1])
+        leaves = [x, y, C(2), f1, f2]
+        inner_leaves = [x, f1, f2]
+        trees = []
+        for tag in ("Sum", "Product"):
+            for a, b in itertools.product(leaves, repeat=2):
+                trees.append((tag, T(a, b)))
+            for a, b, c in itertools.product(leaves, repeat=3):
+                trees.append((tag, T(a, b, c)))
+        pool = list(leaves) + [(tag, T(a, b)) for tag in ("Sum", "Product")
+                               for a, b in itertools.product(inner_leaves, repeat=2)]
+        for tag in ("Sum", "Product"):
+            for a, b in itertools.product(pool, repeat=2):
+                if a[0] in ("Sum", "Product") or b[0] in ("Sum", "Product"):
+                    trees.append((tag, T(a, b)))
+        for t in trees:
+            if not any(c[0] == "float" for c in walk(t)):
+                continue
+            if float_arithmetic_exact(t, (Fraction(1), Fraction(2))):
+                yield ("rf", t)             # all configurations
+            elif float_arithmetic_exact(t):
+                yield ("rfc", t)            # no term collection: flatten and the folders only
 
 
 def max_exponent(s):
